@@ -483,3 +483,62 @@ CLAIM.update({
         ref="DESIGN.md section 4, C16", technique="schedule fuzzing: bounded-exhaustive operation pairs/triples + rapid-generated schedules, with the race detector (happens-before analysis) as the oracle",
         note="found and fixed: running flag race (7c75a32), registry map race during drain (9550491)"),
 })
+
+PLAN["C07"] = dict(
+    quick=[dict(test="TestC07Rapid", checks=250), *shards("TestC07Matrix", 6), dict(test="TestC07Batch", checks=1, env={"VERIF_C07_BATCH": "40"})],
+    thorough=[*shards("TestC07Rapid", 12, checks=2000), *shards("TestC07Matrix", 6), *shards("TestC07Batch", 8, checks=2, env={"VERIF_C07_BATCH": "60"})],
+)
+
+PLAN["C08"] = dict(
+    quick=[dict(test="TestC08Fixed"), *shards("TestC08Rapid", 4, checks=3, env={"VERIF_C08_DESCS": "12", "VERIF_C08_STEPS": "15"})],
+    thorough=[dict(test="TestC08Fixed"), *shards("TestC08Rapid", 12, checks=12, env={"VERIF_C08_DESCS": "20", "VERIF_C08_STEPS": "40"})],
+)
+
+LEVEL.update({"C07": "translation_validation", "C08": "translation_validation"})
+RULE.update({
+    "C07": "programs = interface descriptions in the statement's domain, generated as trees (1-6 members; every type constructor at every position: "
+           "method input/output, error parameters, alias bodies, nested to depth 5; optionals of structs/arrays/maps, arrays of optionals, inline and "
+           "aliased enums, empty structs, self-referential aliases under ?/[]/[string], forward references, parameterless errors; all 25 Go keywords, "
+           "the generator's local identifiers and IDL keywords as field names; member names such as Call/Send/Reply/String/Context; dashes, upper case "
+           "and xn-- labels in interface names; doc comments with backticks, '*/', quotes, 'fmt.Sprintf', 'json.RawMessage', 'context.Context', "
+           "'@IMPORTS@', '%v'; LF or CRLF; 0-3 trailing newlines; one field per line or inline) plus a fixed matrix of 12 wrappers x 10 leaf types x 4 "
+           "positions. Each is given to the real generator binary (built from the tree under test): exit status, no crash, exactly one <pkg>.go, "
+           "parses and type-checks (go/types, source importer) against /repo's varlink package, package name derived from the interface name, same "
+           "bytes on a second run; batches of 40 (60) packages are compiled with the real compiler, linked and run: VarlinkGetName() and "
+           "VarlinkGetDescription() must equal the input up to trailing newlines. Non-trivial = a description with >=1 method with parameters and "
+           ">=1 composite type; distinct by normalised text.",
+    "C08": "programs = batches of 10 (20) descriptions from the C07 domain compiled with shims derived from the generated code's own go/types "
+           "information (an implementation overriding every method, one overriding none) and a driver; per description 12 (40) generated steps: "
+           "values of every declared type as JSON text per the varlink mapping (int64 extremes and +-2^53+-1, floats incl. 5e-324 and 1e308, unicode / "
+           "NUL / quote strings, empty and nested arrays and maps with case-colliding keys, absent and present optionals at every depth, arbitrary "
+           "JSON for object, enum names), reply shapes (typed reply, each declared error with values, parameterless error, not overridden, more with "
+           "0-3 continues, oneway, upgrade, unknown method and undecodable parameters through a raw client). A recording relay captures both "
+           "directions. Oracle (model.WireValue + type-directed comparison): call frame method = <interface>.<Method>, parameters object has exactly "
+           "the description's field names (absent optionals omitted or null) with model-equal values and exactly the requested flags; the "
+           "implementation receives equal Go values; reply / error frames carry exactly the output / error fields and the name "
+           "<interface>.<Error>; the generated client returns equal values, the generated error type with equal fields, "
+           "*varlink.MethodNotImplemented for non-overridden methods; MethodNotFound / InvalidParameter for unknown methods / undecodable "
+           "parameters; Continues on all but the last reply; no bytes for oneway. Plus one fixed description with all constructors and 12 fixed "
+           "steps. Non-trivial = a step whose values contain an optional, a nested composite or a non-ASCII string.",
+})
+ASSUME.update({
+    "C07": ["member names equal to identifiers the emitted code itself defines or calls (VarlinkCall, VarlinkInterface, VarlinkNew, VarlinkDispatch, VarlinkGetName, VarlinkGetDescription, Error, MethodNotImplemented, MethodNotFound, InvalidParameter, InterfaceNotFound) are outside the statement's domain and are not generated",
+            "excluded by construction (known finding): a field named 'error' directly inside an error's parameter list",
+            "field names start with a lower-case letter (two names differing only in the case of the first letter would collide after capitalisation; the varlink grammar makes that legal, the statement's 'distinct field names' is read as distinct after the generator's capitalisation)"],
+    "C08": ["Go values are built from / read back as JSON through encoding/json on the generated types; every verdict is anchored on the captured wire bytes, so a json tag that is wrong in both directions still shows up",
+            "nil-versus-empty slice distinctions that JSON cannot express are not asserted; absent optionals may be omitted or null"],
+})
+CLAIM.update({
+    "C07": dict(
+        text="Translation validation of the generator over generated descriptions: each output is type-checked in process with go/types against the "
+             "repository's varlink package and checked for determinism and naming; batches are compiled by the real compiler, linked, run, and "
+             "the reported name/description compared with the input; a constructor x position matrix is enumerated completely.",
+        ref="DESIGN.md section 4, C07", technique="grammar-based property testing (rapid) + bounded-exhaustive constructor/position matrix; validity-predicate oracle (type checker, compiler, run-time self-description, determinism)",
+        note="six generator defects found and fixed, one recorded as known finding (error parameter named 'error')"),
+    "C08": dict(
+        text="Translation validation of the generated stubs: for generated descriptions and generated typed values the generated client and the "
+             "generated service are linked against derived shims and driven through a recording relay; wire frames, values seen by the "
+             "implementation and values/errors returned by the client are compared type-directedly with the varlink JSON mapping model.",
+        ref="DESIGN.md section 4, C08", technique="property-based testing (rapid) over (description, typed values, reply shape) with a reference wire-value model and round-trip oracle on compiled generated code",
+        note="shares the batch builder with C07"),
+})
